@@ -29,6 +29,23 @@ func (w *c18World) c18AbsorbProbes(from int, at time.Time) {
 		if !ok {
 			truth = "ee"
 		}
+		if w.resolver2.IsValid() && !strings.Contains(truth, "r") {
+			// the bootstrap resolvers are asked in order until one has a record: a name
+			// the first one does not know (or fails on) is decided by the second
+			t2, ok2 := w.probeTruth2[c18BareName(host)]
+			if !ok2 {
+				t2 = "ee"
+			}
+			switch {
+			case strings.Contains(t2, "r"):
+				truth = t2
+				vkClass(c18UnitProbe, "probe_decided_by_second_resolver")
+			case truth == "ee":
+				truth = t2 // first failed outright: whatever the second says
+			case truth == "nn" && t2 != "nn":
+				truth = "ne" // not a clean double no-record any more: no negative-cache claim
+			}
+		}
 		switch {
 		case strings.Contains(truth, "r") && !strings.Contains(truth, "e"):
 			// a record and no failure: the name is verified
@@ -69,11 +86,23 @@ func TestC18_Probe(t *testing.T) {
 	defer func() { resolveIp46ForRealDomainProbe = saved }()
 	rapid.Check(t, func(rt *rapid.T) {
 		c18Bubble(t, func(cleanup *[]func()) {
-			w := c18NewWorld(consts.DialMode_Domain, []netip.AddrPort{netip.MustParseAddrPort("192.0.2.53:53")}, false)
+			resolvers := []netip.AddrPort{netip.MustParseAddrPort("192.0.2.53:53")}
+			two := rapid.Bool().Draw(rt, "two_bootstrap_resolvers")
+			if two {
+				resolvers = append(resolvers, netip.MustParseAddrPort("192.0.2.54:53"))
+			}
+			w := c18NewWorld(consts.DialMode_Domain, resolvers, false)
+			if two {
+				w.resolver2 = resolvers[1]
+				vkClass(c18UnitProbe, "two_bootstrap_resolvers")
+			}
 			*cleanup = append(*cleanup, func() { w.close(); resolveIp46ForRealDomainProbe = saved })
 			resolveIp46ForRealDomainProbe = w.c18StubResolver()
 			for _, n := range c18PoolNames {
 				w.probeTruth[n] = rapid.SampledFrom(c18ProbeOutcomes).Draw(rt, "truth")
+				if two {
+					w.probeTruth2[n] = rapid.SampledFrom(c18ProbeOutcomes).Draw(rt, "truth2")
+				}
 			}
 			ctr := 0
 			nops := rapid.IntRange(20, 50).Draw(rt, "nops")
@@ -108,7 +137,11 @@ func TestC18_Probe(t *testing.T) {
 					}
 				default:
 					n := rapid.SampledFrom(c18PoolNames).Draw(rt, "truth_name")
-					w.probeTruth[n] = rapid.SampledFrom(c18ProbeOutcomes).Draw(rt, "truth")
+					if two && rapid.Bool().Draw(rt, "at_second_resolver") {
+						w.probeTruth2[n] = rapid.SampledFrom(c18ProbeOutcomes).Draw(rt, "truth")
+					} else {
+						w.probeTruth[n] = rapid.SampledFrom(c18ProbeOutcomes).Draw(rt, "truth")
+					}
 					vkClass(c18UnitProbe, "op_truth_change")
 				}
 			}
